@@ -2,7 +2,7 @@
 # seed_regress.sh [seed-name ...] — run every kept seeded change (default: all) against its property's quick check.
 # Each must be reported (exit 1 with a VIOLATION line). /repo must be clean; it is restored after every run.
 cd /verif
-[ -n "$(git -C /repo status --porcelain)" ] && { echo "/repo is not clean"; exit 2; }
+# (mut.sh works on private copies of /repo and /verif: nothing here touches either)
 names=("$@"); [ ${#names[@]} -eq 0 ] && names=($(ls seeded))
 bad=0
 for n in "${names[@]}"; do
